@@ -31,7 +31,7 @@ for c in h.conds(tier):
         kw.update(c.fixed)
         try: r = fn(**kw)
         except Exception as e: r = "exception %s: %s" % (type(e).__name__, e)
-        if r:
+        if r and r != "~":
             print(json.dumps({"cond": c.name, "fn": c.fn, "kwargs": kw, "reason": str(r)[:300]}))
             sys.exit(0)
 print(json.dumps({"none": n}))
